@@ -182,6 +182,7 @@ func normalizeBase(in string) string {
 	if u.Path == "." { // empty after Clean()
 		u.Path = ""
 	}
+	u.RawPath = "" // one way of escaping the path only: "a(b)" and "a%28b%29" are the same location
 
 	if u.Scheme == fileScheme {
 		u.RawQuery = "" // any query component is irrelevant for a local file
